@@ -112,6 +112,13 @@ def run(chk, facts):
                facts.loc_of(acm))
     except AnchorError as e:
         chk.anchor_fail("R-C04-10", e)
+    from .c20 import true_grounds
+    chk.rule("R-C20-3", "has_parent answers a literal `true` only on the class itself, Any, or an ancestor's answer (shared with C20)")
+    true_grounds(chk, facts, "R-C20-3")
+    # no crossed hand-over of same-named parameters in check:: (shared with C05)
+    from . import c05 as _c05b
+    from .common import borrow as _borrow
+    _borrow(chk, facts, _c05b, ("R-C05-8|",), {"R-C05-8": "no call in check:: hands two parameters of its function crosswise to a callee whose parameters carry the same names (shared with C05)"})
     # the unifier accepts a pair of types only through the assignability relation (shared with C05 / C06)
     from . import c05 as _c05, c06 as _c06
     from .common import borrow
